@@ -35,6 +35,20 @@ if _ALT:
 GUARD = "pendulum_project_ntpd_rs_verif"
 NCPU = os.cpu_count() or 4
 
+
+def jobs():
+    """parallelism for make / cargo / coqc shards: all cores on an idle machine, few when
+    many checks run at once (the machine is shared by concurrent checks)"""
+    try:
+        load = os.getloadavg()[0]
+    except OSError:
+        load = 0.0
+    if load < NCPU:
+        return NCPU
+    if load < 3 * NCPU:
+        return max(2, NCPU // 4)
+    return 2
+
 FORBIDDEN = re.compile(
     r"\b(Admitted|admit|Axiom|Axioms|Parameter|Parameters|Conjecture|Conjectures|"
     r"Primitive|Admit\s+Obligations|Unset\s+Guard\s+Checking|Unset\s+Positivity\s+Checking|"
@@ -192,14 +206,7 @@ def proof_gate(prop, tier="quick", extra_props=()):
     targets = ["Props/%s.vo" % p for p in (prop,) + tuple(extra_props)]
     g.cone = sorted(set(sum([cone("Props/%s.v" % p) for p in (prop,) + tuple(extra_props)], [])))
     g.obligations, names = count_obligations(g.cone)
-    if tier == "thorough":
-        # rebuild the cone from clean
-        for f in g.cone:
-            for ext in (".vo", ".vos", ".vok", ".glob"):
-                p = os.path.join(COQ, f[:-2] + ext)
-                if os.path.exists(p):
-                    os.remove(p)
-    cmd = "timeout 3000 make -j%d %s" % (NCPU, " ".join(targets))
+    cmd = "timeout 3000 make -j%d %s" % (jobs(), " ".join(targets))
     g.cmds.append("cd coq && " + cmd)
     rc, out = sh(cmd, cwd=COQ)
     if rc != 0:
@@ -209,6 +216,24 @@ def proof_gate(prop, tier="quick", extra_props=()):
         g.problems.append("proof build failed at %s: %s" % (where, out[-1500:]))
     else:
         g.discharged = g.obligations
+    private = None
+    if tier == "thorough" and rc == 0:
+        # rebuild the whole cone from clean in a private copy (coq/ itself is shared with
+        # concurrently running checks, so nothing is deleted there)
+        private = os.path.join(CACHE, "thorough", "%s_%d" % (prop, os.getpid()))
+        shutil.rmtree(private, ignore_errors=True)
+        for f in g.cone:
+            os.makedirs(os.path.dirname(os.path.join(private, f)), exist_ok=True)
+            shutil.copy(os.path.join(COQ, f), os.path.join(private, f))
+        with open(os.path.join(private, "_CoqProject"), "w") as fh:
+            fh.write("-Q . V\n-arg -w -arg -notation-overridden,-ambiguous-paths,-deprecated-hint-without-locality,-deprecated-instance-without-locality,-deprecated-hint-rewrite-without-locality\n" + "\n".join(g.cone) + "\n")
+        cmd2 = "coq_makefile -f _CoqProject -o Makefile && timeout 6000 make -j%d" % jobs()
+        g.cmds.append("cd <private copy of the cone> && " + cmd2)
+        rc2, out2 = sh(cmd2, cwd=private)
+        if rc2 != 0:
+            g.ok = False
+            g.discharged = 0
+            g.problems.append("clean rebuild of the cone failed: " + out2[-1500:])
     # forbidden words anywhere in the cone
     for f in g.cone:
         src = strip_comments(open(os.path.join(COQ, f)).read())
@@ -220,10 +245,14 @@ def proof_gate(prop, tier="quick", extra_props=()):
         allow = load_allow()
         for p in (prop,) + tuple(extra_props):
             os.makedirs(os.path.join(CACHE, "props"), exist_ok=True)
-            scratch = os.path.join(CACHE, "props", p + ".vo")
+            scratch = os.path.join(CACHE, "props", "%s_%d.vo" % (p, os.getpid()))
             cmd = "timeout 900 coqc -q -noglob -Q . V -o %s Props/%s.v" % (scratch, p)
             g.cmds.append("cd coq && " + cmd)
             rc2, out2 = sh(cmd, cwd=COQ)
+            try:
+                os.remove(scratch)
+            except OSError:
+                pass
             if rc2 != 0:
                 g.ok = False
                 g.problems.append("Props/%s.v does not compile: %s" % (p, out2[-1500:]))
@@ -242,8 +271,8 @@ def proof_gate(prop, tier="quick", extra_props=()):
         if tier == "thorough" and os.environ.get("VERIF_COQCHK", "1") == "1":
             mods = " ".join("V." + f[:-2].replace("/", ".") for f in g.cone if f.startswith("Props/"))
             cmd = "timeout 3000 coqchk -silent -o -Q . V %s" % mods
-            g.cmds.append("cd coq && " + cmd)
-            rc3, out3 = sh(cmd, cwd=COQ)
+            g.cmds.append("cd <private copy of the cone> && " + cmd)
+            rc3, out3 = sh(cmd, cwd=private or COQ)
             if rc3 != 0:
                 g.ok = False
                 g.problems.append("coqchk failed: " + out3[-1500:])
@@ -264,6 +293,8 @@ def proof_gate(prop, tier="quick", extra_props=()):
                     if a not in allow and short not in {x.split(".")[-1] for x in allow}:
                         g.ok = False
                         g.problems.append("coqchk reports axiom %s, not in assumptions.allow" % a)
+    if private:
+        shutil.rmtree(private, ignore_errors=True)
     g.wall = time.time() - t0
     return g
 
@@ -304,7 +335,7 @@ def run_coq_cases(tag, preamble, case_terms, checker, shard=400, timeout=1800):
         return k, rc, out
 
     mism, errors = [], []
-    with ThreadPoolExecutor(max_workers=NCPU) as ex:
+    with ThreadPoolExecutor(max_workers=jobs()) as ex:
         for k, rc, out in ex.map(one, jobs):
             if rc != 0:
                 errors.append("shard %d: coqc rc=%d: %s" % (k, rc, out[-2000:]))
@@ -330,6 +361,7 @@ def cargo_env():
     return {
         "CARGO_TARGET_DIR": TARGET,
         "CARGO_NET_OFFLINE": "true",
+        "CARGO_BUILD_JOBS": str(jobs()),
         # release semantics for arithmetic and debug_assert (DESIGN.md 2.2)
         "CARGO_PROFILE_TEST_OVERFLOW_CHECKS": "false",
         "CARGO_PROFILE_TEST_DEBUG_ASSERTIONS": "false",
